@@ -124,6 +124,23 @@ def unary_exprs(t):
         out.append(('idx', ('slice', a, w - 1, 1), 0))
         out.append(('view', 'unsigned', ('slice', a, w - 1, 1)))
         out.append(('view', 'signed', ('slice', a, w - 1, 0)))
+    if w <= 3:
+        # select_with on views and slices of the operand (selector typing in with/select and case statements)
+        def selw(sel, sw, skind):
+            alts = []
+            for kk in range(1 << sw):
+                key = kk if skind == 'u' else format(kk, f'0{sw}b')
+                alts.append((key, ('lit', 'u', 3, (kk * 3 + 1) % 8)))
+            return [('selw', sel, alts[:-1], ('lit', 'u', 3, 7)), ('selw', sel, alts, None)]
+        out += selw(('view', 'unsigned', a), w, 'u')
+        out += selw(('view', 'bitvector', a), w, 'bv')
+        if k == 'u':
+            out += selw(a, w, 'u')
+        if k == 'bv':
+            out += selw(a, w, 'bv')
+        if w >= 2:
+            out += selw(('slice', a, w - 1, 1), w - 1, 'bv')
+            out += selw(('view', 'unsigned', ('slice', a, w - 2, 0)), w - 1, 'u')
     if w >= 4:
         # three and four levels of constant slicing with non-zero lower bounds, msb/lsb chains
         l2 = ('slice', ('slice', a, w - 1, 1), w - 2, 1)
